@@ -176,9 +176,15 @@ def build(case):
     pwd_lines = []
     if case["mode"] == "file+pwd":
         cand = sorted(reserved_exact & {"ipaddress", "snmp", "level", "encrypted"}) + user_res
+        from ..oracles import decoders
+
         for _ in range(2):
             if cand:
-                pwd_lines.append("password " + rng.choice(cand))
+                w = rng.choice(cand)
+                if rng.random() < 0.5 and all(ord(c) < 256 for c in w):
+                    # the same reserved word seen earlier as the plaintext of a $9$ secret
+                    pwd_lines.append("pre-shared-key " + decoders.j9_encode(w, rng.choice(decoders.J9_ALPHABET), rng))
+                pwd_lines.append("password " + w)
     return words, user_res, reserved_exact, reserved_lower, lines, pwd_lines
 
 
@@ -286,6 +292,8 @@ def _check(ctx, case, nc):
                 return
         for j, p in enumerate(pwd_lines):
             g = got_lines[len(lines) + j]
+            if p.startswith("pre-shared-key "):
+                continue
             ctx.count("reserved_secret_values_checked")
             if g != p:
                 ctx.violation(case, "reserved-secret-value-changed", "secret line %r whose value is a reserved word became %r" % (p, g))
